@@ -136,6 +136,16 @@ Section Features.
   Definition adiabat_g (g : globals) (grav depth : F) : F :=
     g_Tp g * fexp (((g_alpha g * grav) / g_cp g) * depth).
 
+  (** the closed forms, as separate functions (the theorems of C05/C20 are about these terms) *)
+  Definition linear_T (top_l bot_l mnll mxll d : F) : F :=
+    top_l + (if (mxll - mnll) <? (fofZ 10 * feps) then f0
+             else (d - mnll) * ((bot_l - top_l) / (mxll - mnll))).
+  Definition chapman_T (top_l qt kc A dz : F) : F :=
+    (top_l + ((qt / kc) * dz)) - (((A / (f2 * kc)) * dz) * dz).
+  Definition half_space_T (kappa top bot age d : F) : F :=
+    bot + (if f0 <? age then (top - bot) * ferfc (d / (f2 * fsqrt (kappa * age))) else f0).
+  Definition adiabatic_T (Tp alpha cp grav d : F) : F := Tp * fexp (((alpha * grav) / cp) * d).
+
   (** [fmin_l], [fmax_l]: the feature's local depth range handed to the model *)
   Definition temp_eval (g : globals) (k : akind) (sph : bool) (q : query)
              (fmin_l fmax_l : F) (m : temp_model) (old : F) : F :=
@@ -152,23 +162,17 @@ Section Features.
             let mxll := fmin fmax_l mxl in
             let top_l := if top <? f0 then adiabat_g g (q_g q) mnll else top in
             let bot_l := if bottom <? f0 then adiabat_g g (q_g q) mxll else bottom in
-            let new := top_l + (if (mxll - mnll) <? (fofZ 10 * feps) then f0
-                                else (d - mnll) * ((bot_l - top_l) / (mxll - mnll))) in
-            apply_op o old new
+            apply_op o old (linear_T top_l bot_l mnll mxll d)
         | TAdiabatic _ _ o Tp alpha cp =>
-            apply_op o old (Tp * fexp (((alpha * q_g q) / cp) * d))
+            apply_op o old (adiabatic_T Tp alpha cp (q_g q) d)
         | TChapman _ _ o kc A qt top =>
             let mnll := fmax fmin_l mnl in
             let top_l := if top <? f0 then adiabat_g g (q_g q) mnll else top in
-            let dz := d - mnll in
-            let new := (top_l + ((qt / kc) * dz)) - (((A / (f2 * kc)) * dz) * dz) in
-            apply_op o old new
+            apply_op o old (chapman_T top_l qt kc A (d - mnll))
         | THalfSpace _ _ o top bottom ridges vels =>
             let bot := if bottom <? f0 then adiabat_g g (q_g q) d else bottom in
             let '(v, dist) := ridge_distance_and_spreading sph ridges vels (nat_at_min_depth sph q (ds_min mn)) in
-            let age := dist / v in
-            let new := bot + (if f0 <? age then (top - bot) * ferfc (d / (f2 * fsqrt (g_kappa g * age))) else f0) in
-            apply_op o old new
+            apply_op o old (half_space_T (g_kappa g) top bot (dist / v) d)
         | TPlateModel _ _ o top bottom ridges vels =>
             let bot := if bottom <? f0 then adiabat_g g (q_g q) d else bottom in
             let '(v, dist) := ridge_distance_and_spreading sph ridges vels (nat_at_min_depth sph q (ds_min mn)) in
